@@ -314,10 +314,19 @@ def encode_value(dt, v):
 class RefNode:
     """What the property says a node must hold / serve.  Follows the transfers of the case."""
 
-    def __init__(self, dic, rcb, store):
+    def __init__(self, dic, rcb, store, wcb=()):
         self.dic = dic
         self.rcb = {(i, s): v for i, s, v in reversed(rcb)}
         self.store = {(i, s): bytes(b) for i, s, b in store}
+        self.wcb = [list(x) for x in wcb]     # application write callbacks that refuse: [idx, sub, data | None, action]
+
+    def veto(self, idx, sub, data):
+        """the action {"abort": code} | {"exc": 1} of the first write-callback rule refusing this write, or None.
+        A refused write must leave the node as it was (the callback is the application's way to reject a value)."""
+        for i, s, m, act in self.wcb:
+            if (i, s) == (idx, sub) and (m is None or bytes(m) == bytes(data)):
+                return act
+        return None
 
     def expected_upload(self, idx, sub):
         """-> ("abort", {codes}) | ("data", bytes) | ("any", None)"""
@@ -328,6 +337,10 @@ class RefNode:
             return ("abort", {AB_WRITEONLY})
         for src in (self.rcb.get((idx, sub)),):
             if src is not None:
+                if "abort" in src:
+                    return ("abort", {src["abort"]})      # the application refuses the read with this code
+                if "exc" in src:
+                    return ("any", None)
                 b = encode_value(e["dt"], src)
                 return ("data", b) if b is not None else ("any", None)
         if (idx, sub) in self.store:
